@@ -49,6 +49,13 @@ func (c *fcase) toCase() core.Case {
 }
 
 func replayC03(c core.Case) *core.Finding {
+	if c.Harness == "c03.pressure" {
+		g, _ := c14Pressure(byte(paramInt(c.Params, "type")), paramInt(c.Params, "n"))
+		if g != nil {
+			g.Class = strings.Replace(g.Class, "cache-pressure/", "after-many-other-frames/", 1)
+		}
+		return g
+	}
 	b, _ := json.Marshal(c.Packet)
 	var p spec.Packet
 	if err := json.Unmarshal(b, &p); err != nil {
@@ -249,6 +256,31 @@ func carrierWithWill() *spec.Packet {
 }
 
 func runC03(x *core.Ctx) {
+	// a valid frame is decoded to the values it carries also in a process
+	// that has decoded many other frames before (histories of 3 x N frames
+	// with pairwise distinct contents, shared with C14)
+	for _, t := range c14PressureTypes {
+		for _, n := range []int{300, 1200} {
+			if !x.Mine() {
+				continue
+			}
+			t, n := t, n
+			f, calls := c14Pressure(t, n)
+			x.EvalN("after-many-other-frames", calls)
+			if f != nil {
+				f.Class = strings.Replace(f.Class, "cache-pressure/", "after-many-other-frames/", 1)
+				x.Report(f, func() core.Case {
+					return core.Case{Harness: "c03.pressure", Params: map[string]any{"type": int(t), "n": n}}
+				}, func() *core.Finding {
+					g, _ := c14Pressure(t, n)
+					if g != nil {
+						g.Class = strings.Replace(g.Class, "cache-pressure/", "after-many-other-frames/", 1)
+					}
+					return g
+				})
+			}
+		}
+	}
 	total := int64(0)
 	do := func(c *fcase) bool {
 		if !x.Mine() {
@@ -275,6 +307,14 @@ func runC03(x *core.Ctx) {
 		return true
 	}
 
+	// every frame of the shared valid corpus (among them frames no setter
+	// sequence produces: credential flags with zero-length credentials, user
+	// properties with an empty name)
+	for _, v := range validCorpus() {
+		if !do(&fcase{Stratum: "V.corpus", P: v.P, Form: v.Form}) {
+			return
+		}
+	}
 	// (V) values: the C01 strata in the long form
 	k := 2
 	if x.Thorough() {
